@@ -202,7 +202,7 @@ wait:
 		}
 		if q := l.seq.Load(); q != lastSeq {
 			lastSeq, since = q, time.Now()
-		} else if time.Since(since) > 1500*time.Millisecond {
+		} else if time.Since(since) > 5*time.Second {
 			stalled = true
 			break wait
 		}
@@ -229,7 +229,7 @@ wait:
 		if err != nil {
 			t.Fatal(err)
 		}
-		fmt.Fprintf(f, "# free-running search on csync.%s (real scheduler, %d goroutines, seed %d): every goroutine stayed blocked in Lock for 1.5 s while %d writer(s) and %d reader(s) were inside their critical sections\n", map[bool]string{true: "RWMutex", false: "Mutex"}[rw], ng, *hist.Seed, h/wbit, h%wbit)
+		fmt.Fprintf(f, "# free-running search on csync.%s (real scheduler, %d goroutines, seed %d): every goroutine stayed blocked in Lock for 5 s while %d writer(s) and %d reader(s) were inside their critical sections\n", map[bool]string{true: "RWMutex", false: "Mutex"}[rw], ng, *hist.Seed, h/wbit, h%wbit)
 		l.dump(f, l.seq.Load())
 		f.Close()
 		fmt.Fprintf(os.Stderr, "FREE-STALL all goroutines blocked in Lock, holders=%d\n", h)
